@@ -193,7 +193,7 @@ structure PopOk (S : List Nat) (o : EpochOpts W) (p : Pop W) : Prop where
   uid : UidInv p
   spid : SpIdInv p
   size : p.organisms.length = o.popSize
-  listed : p.organisms = orgUids p.species
+  perm : (orgUids p.species).Perm p.organisms
   nodup : p.organisms.Nodup
   nonempty : ∀ s ∈ p.species, s.orgs ≠ []
   unmarked : ∀ x ∈ allOrgs p, x.toEliminate = false
@@ -226,13 +226,14 @@ theorem safe_nextEpoch_core (hlaw : UnitMulLe W) (hpick : PickLaw W) (S : List N
     (h : Hyp S o p) (gen : Int) (rs : List Nat) (hv : Valid rs) :
     Safe (fun p' => ∀ x ∈ allOrgs p', Newborn S x) (nextEpoch o gen p rs) := by
   obtain ⟨ho, hp, hq⟩ := h
-  have hundup : (orgUids p.species).Nodup := hp.listed ▸ hp.nodup
+  have hundup : (orgUids p.species).Nodup := hp.perm.nodup_iff.mpr hp.nodup
   have hspne : p.species ≠ [] := by
     intro e
     have h1 := hp.size
-    rw [hp.listed, e] at h1
+    have h3 := hp.perm.length_eq
+    rw [e] at h3
     have h2 := ho.popSize
-    simp [orgUids] at h1
+    simp [orgUids] at h3
     omega
   unfold nextEpoch
   have hprep := safe_prepare o p rs hp.nonempty hspne hp.size ho.popSize hq
@@ -252,7 +253,7 @@ theorem safe_nextEpoch_core (hlaw : UnitMulLe W) (hpick : PickLaw W) (S : List N
         simpa using huids.symm
       have hlen : s0.orgs.length ≤ o.popSize := by
         have := orgs_le_uids p.species s0 hs0
-        rw [← hp.listed, hp.size] at this; exact this
+        rw [hp.perm.length_eq, hp.size] at this; exact this
       have hnp := ho.parents _ hlen
       rcases List.take_eq_nil_iff.mp htake with h0 | h0
       · omega
